@@ -307,6 +307,14 @@ def probe(hist):
             batch = [msg(XA, 'p2p', YA, big), msg(XA, 'p2p', YB, big + 1), msg(XB, 'p2p', YA, big + 2), msg(XB, 'p2p', YB, big + 3),
                      msg(XA, 'bam2', 0x50, bsz), msg(XB, 'bam2', 0x51, bsz + 1)]
             extra = [msg(XA, 'p2p', YA, big + 9), msg(XB, 'bam2', 0x52, bsz + 2)]
+        # the other stack starts transfers of its own towards X first: inbound sessions for X, which must not cost X any
+        # of its own outbound capacity (nor, the other stack being a second instance in this process, share anything with it)
+        inbound = [msg(YA, 'p2p', XA, big + 5), msg(YB, 'p2p', XB, big + 6), msg(YA, 'bam2', 0x70, bsz + 5)]
+        if dll == 'j1939-22':
+            inbound += [msg(YB, 'p2p', XA, big + 8), msg(YB, 'bam2', 0x71, bsz + 6)]
+        rin = [net.submit(m, 60 + i) for i, m in enumerate(inbound)]
+        if rin != [True] * len(inbound):
+            probs.append("the peer stack's own transfers refused on an idle network: send_pgn results %r" % (rin,))
         for i, m in enumerate(batch):
             res.append(net.submit(m, 40 + i))
         if res != [True] * len(batch):
